@@ -778,6 +778,178 @@ theorem kinv_run : ∀ (ops : List HOp) {h : HSt}, (∀ op, Kinv h.sys op) → F
     simp only [List.foldl_cons]
     exact kinv_run ops (kinv_step hk op hf.1) hf.2
 
+/-! ### recorded edges join listed (live) operations, along every history -/
+
+/-- operation `o` is listed in `active_operations` -/
+def Listed (s : Sys) (o : Nat) : Prop := ∃ c ∈ s.active, c.id = o
+
+/-- both endpoints of every recorded edge are listed operations -/
+def EdgesLive (s : Sys) : Prop := ∀ w b r, HasEdge s.edges w b r → Listed s w ∧ Listed s b
+
+theorem listed_of_ids {s s' : Sys} (h : s'.active.map (·.id) = s.active.map (·.id)) {o : Nat} (hl : Listed s o) :
+    Listed s' o := by
+  obtain ⟨c, hc, hid⟩ := hl
+  have : c.id ∈ s'.active.map (·.id) := by rw [h]; exact List.mem_map.mpr ⟨c, hc, rfl⟩
+  obtain ⟨c', hc', hcc⟩ := List.mem_map.mp this
+  exact ⟨c', hc', hcc.trans hid⟩
+
+theorem listed_start {s : Sys} (o : Nat) (p : Int) {x : Nat} (hl : Listed s x) : Listed (s.start o p).1 x := by
+  unfold Sys.start
+  simp only
+  split
+  · exact listed_of_ids (setCtx_ids s _) hl
+  · obtain ⟨c, hc, hid⟩ := hl
+    exact ⟨c, List.mem_append_left _ hc, hid⟩
+
+/-- whoever owns a lock is listed (the contrapositive of `Kinv.unlisted`) -/
+theorem listed_of_owns {s : Sys} {o x : Nat} (hk : Kinv s o) (h : Owns s o x) : Listed s o := by
+  apply Classical.byContradiction
+  intro hn
+  exact hk.unlisted (fun c hc hid => hn ⟨c, hc, hid⟩) x h
+
+theorem edgesLive_step {h : HSt} (hk : ∀ op, Kinv h.sys op) (hl : EdgesLive h.sys) (op : HOp) :
+    EdgesLive (hstep h op).sys := by
+  cases op with
+  | start o p =>
+    intro w b r he
+    obtain ⟨h1, h2⟩ := hl w b r (by
+      have : ((h.sys.start o p).1).edges = h.sys.edges := by unfold Sys.start; simp only; split <;> rfl
+      simp only [hstep] at he; rw [this] at he; exact he)
+    exact ⟨listed_start o p h1, listed_start o p h2⟩
+  | finish o =>
+    simp only [hstep]
+    cases hc : h.sys.ctx? o with
+    | none => exact hl
+    | some c =>
+      simp only
+      have hf := finish_finStep h.sys c
+      intro w b r he
+      obtain ⟨hw, hb, he0⟩ := (hf.edges w b r).mp he
+      obtain ⟨⟨cw, hcw, hidw⟩, ⟨cb, hcb, hidb⟩⟩ := hl w b r he0
+      refine ⟨⟨cw, ?_, hidw⟩, ⟨cb, ?_, hidb⟩⟩
+      · rw [hf.active]; exact List.mem_filter.mpr ⟨hcw, by simp [hidw, hw]⟩
+      · rw [hf.active]; exact List.mem_filter.mpr ⟨hcb, by simp [hidb, hb]⟩
+  | rel o r =>
+    simp only [hstep]
+    cases hc : h.sys.ctx? o with
+    | none => exact hl
+    | some c =>
+      simp only
+      have hr := (release_relStep h.sys c r).1
+      intro w b x he
+      obtain ⟨h1, h2⟩ := hl w b x (hr.edges w b x he)
+      exact ⟨listed_of_ids hr.ids h1, listed_of_ids hr.ids h2⟩
+  | acq o r =>
+    simp only [hstep]
+    cases hc : h.sys.ctx? o with
+    | none => exact hl
+    | some c =>
+      obtain ⟨hcm, hcid⟩ := ctx?_some hc
+      have key : EdgesLive (acquire h.sys c r).1 := by
+        cases hlk : h.sys.locks r with
+        | none => rw [acquire_unknown hlk]; exact hl
+        | some l =>
+          by_cases hres : (l.tryAcquire c.id c.prio).2 = .blocked
+          · rw [acquire_blocked hlk hres]
+            intro w b x he
+            rcases hasEdge_addDep.mp he with he0 | ⟨hw, hb, _⟩
+            · exact hl w b x he0
+            · refine ⟨⟨c, hcm, hw.symm⟩, ?_⟩
+              obtain ⟨_, _, hne⟩ := tryAcquire_blocked hres
+              cases ho : l.owner with
+              | none => exact absurd ho hne
+              | some b' =>
+                have hown : Owns h.sys b' r := ⟨l, hlk, ho⟩
+                obtain ⟨cb, hcb, hidb⟩ := listed_of_owns (hk b') hown
+                exact ⟨cb, hcb, by rw [hb, ho]; simpa using hidb⟩
+          · rw [acquire_ok hlk hres]
+            intro w b x he
+            have he0 : HasEdge (removeAllFor h.sys.edges c.id) w b x := he
+            obtain ⟨_, _, he1⟩ := hasEdge_removeAllFor.mp he0
+            obtain ⟨h1, h2⟩ := hl w b x he1
+            exact ⟨listed_of_ids (setCtx_ids _ _) h1, listed_of_ids (setCtx_ids _ _) h2⟩
+      simp only
+      generalize acquire h.sys c r = q at key
+      obtain ⟨s', c', res⟩ := q
+      cases res with
+      | none => exact key
+      | some lr => cases lr <;> exact key
+
+theorem edgesLive_run : ∀ (ops : List HOp) {h : HSt}, (∀ op, Kinv h.sys op) → EdgesLive h.sys → FreshStarts h ops →
+    EdgesLive (hrun h ops).sys
+  | [], _, _, hl, _ => hl
+  | op :: ops, h, hk, hl, hf => by
+    unfold hrun
+    simp only [List.foldl_cons]
+    exact edgesLive_run ops (kinv_step hk op hf.1) (edgesLive_step hk hl op) hf.2
+
+/-! ### a reported deadlock is handled -/
+
+theorem firstMinBy_isSome {α : Type} (key : α → Int) {l : List α} (h : l ≠ []) : (firstMinBy key l).isSome = true := by
+  cases l with
+  | nil => exact absurd rfl h
+  | cons x xs => rfl
+
+/-- when some member of the reported cycle is listed, a victim is selected — whatever the strategy -/
+theorem selectVictim_isSome {s : Sys} {cyc : List Nat} {a : Nat} (ha : a ∈ cyc) (hl : Listed s a) :
+    (selectVictim s cyc).isSome = true := by
+  obtain ⟨c, hc, hid⟩ := hl
+  have hfind : ∃ c', s.ctx? a = some c' := by
+    cases hq : s.ctx? a with
+    | some c' => exact ⟨c', rfl⟩
+    | none => exact absurd hid (ctx?_none hq c hc)
+  obtain ⟨c', hc'⟩ := hfind
+  have hne : cyc.filterMap s.ctx? ≠ [] := by
+    intro hn
+    have : c' ∈ cyc.filterMap s.ctx? := List.mem_filterMap.mpr ⟨a, ha, hc'⟩
+    rw [hn] at this; cases this
+  unfold selectVictim
+  simp only
+  cases s.strategy with
+  | priority => simp only [Option.isSome_map]; exact firstMinBy_isSome _ hne
+  | oldest => simp only [Option.isSome_map]; exact firstMinBy_isSome _ hne
+  | other =>
+    simp only [Option.isSome_map]
+    cases hq : cyc.filterMap s.ctx? with
+    | nil => exact absurd hq hne
+    | cons x xs => rfl
+
+/-- `Watchdog.check` names a member of every reported cycle that has a listed member (with the reason DEADLOCK, or
+    with the reason it was already named for in the same pass) -/
+theorem wdCheck_names_member {s : Sys} {cyc : List Nat} (hcyc : detectCycle s.edges = some cyc) {a : Nat}
+    (ha : a ∈ cyc) (hl : Listed s a) :
+    ∃ v, selectVictim s cyc = some v ∧ v ∈ cyc ∧ v ∈ (wdCheck s).map (·.1) := by
+  have hsome := selectVictim_isSome ha hl
+  cases hv : selectVictim s cyc with
+  | none => rw [hv] at hsome; cases hsome
+  | some v =>
+    obtain ⟨_, _, _, _, hmem, _⟩ := selectVictim_spec hv
+    refine ⟨v, rfl, hmem, ?_⟩
+    unfold wdCheck
+    simp only [hcyc, hv]
+    split
+    · rename_i hcont
+      simpa using hcont
+    · simp
+
+/-- `wdExecute` is a sequence of endings: a watchdog pass is a history of `finish` steps -/
+theorem hrun_finishes_sys : ∀ (ids : List Nat) (h : HSt), (hrun h (ids.map HOp.finish)).sys = abortMany h.sys ids
+  | [], _ => rfl
+  | o :: ids, h => by
+    unfold hrun abortMany
+    simp only [List.map_cons, List.foldl_cons]
+    have hstep_sys : (hstep h (.finish o)).sys = abortById h.sys o := by
+      simp only [hstep]
+      unfold abortById
+      cases h.sys.ctx? o <;> rfl
+    have := hrun_finishes_sys ids (hstep h (.finish o))
+    unfold hrun abortMany at this
+    rw [this, hstep_sys]
+
+theorem freshStarts_finishes : ∀ (ids : List Nat) (h : HSt), FreshStarts h (ids.map HOp.finish)
+  | [], _ => trivial
+  | _ :: ids, _ => ⟨rfl, freshStarts_finishes ids _⟩
+
 /-! ### with one entry per waiter, the DFS sees every recorded edge -/
 
 theorem entry_unique : ∀ {E : Edges}, (E.map (·.1)).Nodup → ∀ {e e' : Nat × List (Nat × Nat)},
